@@ -11,7 +11,7 @@ claimed = {
    ref="DESIGN.md §6 C08, §13"),
  "C15": dict(
    text="Decided by frames instead of schedules: (1) every function under contract (all five packages, both limb layouts) has a write-frame obligation on each individual store, copy, library write and callee modifies clause: memory that existed before the call is written only inside the function's modifies clause, and the exported functions have `modifies nothing` (a transient write that is undone before returning is still reported); (2) one obligation per package-level variable: no function other than a package initialiser writes it, passes its address to a writer, or appends into its backing store (testBatchY is written only under testBatchSaveY, which nothing sets); (3) the module starts no goroutines; (4) results are fresh allocations. Hence concurrent calls on shared read-only inputs cannot race and each call is a function of its arguments and entropy stream.",
-   note="Trusted: Go memory model; sha512/subtle/binary/rand/x-crypto functions are goroutine-safe and stateless. VerifyBatch and the heap routines are not under contract: for them only part (2) and (3) apply (direct global stores and address-passing), not the write-frame obligations. A caller overwriting x25519.Basepoint is outside the property. No schedule or history is enumerated, so violations carry no failing input.",
+   note="Trusted: Go memory model; sha512/subtle/binary/rand/x-crypto functions are goroutine-safe and stateless. VerifyBatch is under contract (write frames apply); the heap routines and multiScalarmultVartime are trusted to write only the scratch heap they are handed: for them only parts (2) and (3) apply. A caller overwriting x25519.Basepoint is outside the property. No schedule or history is enumerated, so violations carry no failing input.",
    ref="DESIGN.md §6 C15, §13"),
  "C01": dict(
    text="verify / Verify / VerifyWithOptions are verified against one contract: result == vspec(A, M, sig, f, c, zip215), the documented predicate (lengths, S < L via scMinimal, decodability of A and R, small-order rejection in default mode only, and the cofactored group equation on the decoded points with h = SHA-512(dom2 || R || A || M) mod L). Every function between the API and the field arithmetic (ge25519, modm, curve25519; both limb layouts) is checked against its own contract, callers against callee contracts only. Proof level for all inputs; the group-theoretic reading of the leaf formulas and the double-base multiplication result are named assumptions, not proved.",
@@ -47,7 +47,7 @@ claimed = {
    ref="DESIGN.md §6 C12"),
  "C13": dict(
    text="For every function under contract in the five packages the generator emits an obligation for each index, slice, nil dereference, conversion and explicit panic, and a frame obligation for each store: the API functions panic only in the documented cases (contract clause `panics`), write only to locals or result memory (`modifies nothing`), and results are fresh allocations (`fresh(result)`). All discharged for all inputs on both limb layouts.",
-   note="Trusted: go/ssa, govc, solvers; library panics are modelled. VerifyBatch (and the heap routines) are not under contract, so the batch clauses of the property are not covered by this check.",
+   note="Trusted: go/ssa, govc, solvers; library panics are modelled. VerifyBatch is verified against a safety/frame contract (never panics for any batch length or malformed entry, modifies nothing, fresh result of length n) relative to a TRUSTED contract for multiScalarmultVartime and the heap routines (their bodies are not verified: memory safety of the Bos-Coster loop is assumed).",
    ref="DESIGN.md §6 C13"),
  "C14": dict(
    text="GenerateKey, NewKeyFromSeed, Public, Seed and both Equal methods are verified against contracts: one ReadFull of exactly 32 bytes from the chosen reader (crypto/rand.Reader when nil), error => (nil, nil, err), otherwise the key pair of that seed; priv[32:] is the public key; Seed/Public return fresh copies; Equal is true exactly for the same dynamic type, length and bytes.",
